@@ -585,7 +585,8 @@ def gen_xcases(rng, tier):
         for _ in range(rng.randint(1, 4)):
             r = rng.random()
             data = bytes(rng.randrange(256) for _ in range(rng.randint(0, 14))).hex()
-            ops.append("all:" + data if r < 0.45 else "put:" + data if r < 0.6 else "desc" if r < 0.75 else "hooks" if r < 0.88 else "consts")
+            ops.append("all:" + data if r < 0.4 else "put:" + data if r < 0.52 else "desc" if r < 0.64 else "hooks" if r < 0.74 else
+                       "flush" if r < 0.84 else "touch" if r < 0.92 else "consts")
         if rng.random() < 0.5:
             ops.append("fin:" + bytes(rng.randrange(256) for _ in range(rng.randint(0, 6))).hex())
         acc = [rng.choice([0, 1, 1, 2, 2, 2, 3, 9]) for _ in range(rng.randint(0, 12))]
@@ -623,6 +624,49 @@ def shrink_xcase(binary, line):
             break
         head, acc, ops = nxt
     return render(head, acc, ops)
+
+
+def mirrors_binary():
+    traits = M.inventory()
+    gen_src = M.gen_rs(traits)
+    path = os.path.join(C.VERIF, "harness", "mirrors", "src", "gen.rs")
+    if not os.path.exists(path) or open(path).read() != gen_src:
+        open(path, "w").write(gen_src)
+    return C.build_harness("mirrors")
+
+
+class ExtrasPart:
+    """a correspondence part for other properties: a MIRRORED local upstream trait (`mirror = upstream::Chunked`: the provided methods'
+    bodies in the declaration are placeholders `{}`, the upstream bodies run) with associated constants and provided methods of every
+    receiver kind - also ones that return `()` - driven by random scripts on a plain implementor and on the mock (strict and partial):
+    results and the sequence of required-method calls must be identical"""
+    def __init__(self, prop):
+        self.prop = prop
+
+    def __call__(self, rng, tier, seed, cases):
+        binary = mirrors_binary()
+        xlines = gen_xcases(rng, tier)
+        xobs = C.run_harness(binary, xlines)
+        xbad = [k for k, o in enumerate(xobs) if xcase_bad(o)]
+        cov = {"mirrored_trait_part": {"evaluations": len(xlines), "rule": ExtrasPart.__doc__}}
+        if not xbad:
+            return len(xlines), None, cov
+        line = shrink_xcase(binary, xlines[xbad[0]])
+        obs = C.run_harness(binary, [line])[0]
+        return len(xlines), {"property": self.prop, "seed": seed, "part": "xcase", "xcase": line,
+                             "theorem_or_correspondence": f"correspondence {self.prop} (mirrored-trait part): mock vs plain implementor of upstream::Chunked "
+                                                          "(harness/mirrors/src/extras.rs)",
+                             "observed": obs, "original_xcase": xlines[xbad[0]], "disagreeing_cases_in_run": len(xbad),
+                             "replay_cmd": f"./check {self.prop} --replay <this file>"}, cov
+
+
+def replay_xcase(prop, payload, path):
+    binary = mirrors_binary()
+    obs = C.run_harness(binary, [payload["xcase"]])[0]
+    print("\n".join(obs))
+    if xcase_bad(obs):
+        C.violation(prop, path); return 1
+    print("agree"); return 0
 
 
 def run(tier, seed):
